@@ -205,36 +205,38 @@ func min(rawNums ...vals.Num) (vals.Num, error) {
 	}
 }
 
-func pow(base, exp vals.Num) vals.Num {
+func pow(base, exp vals.Num) (vals.Num, error) {
 	if isExact(base) && isExactInt(exp) {
 		// Produce exact result
 		switch exp {
 		case 0:
-			return 1
+			return 1, nil
 		case 1:
-			return base
-		case -1:
-			return new(big.Rat).Inv(vals.PromoteToBigRat(base))
+			return base, nil
 		}
 		exp := vals.PromoteToBigInt(exp)
 		if isExactInt(base) && exp.Sign() > 0 {
 			base := vals.PromoteToBigInt(base)
-			return new(big.Int).Exp(base, exp, nil)
+			return new(big.Int).Exp(base, exp, nil), nil
 		}
 		base := vals.PromoteToBigRat(base)
 		if exp.Sign() < 0 {
+			if base.Sign() == 0 {
+				// 0 to a negative power is a division by zero.
+				return nil, eval.ErrDivideByZero
+			}
 			base = new(big.Rat).Inv(base)
 			exp = new(big.Int).Neg(exp)
 		}
 		return new(big.Rat).SetFrac(
 			new(big.Int).Exp(base.Num(), exp, nil),
-			new(big.Int).Exp(base.Denom(), exp, nil))
+			new(big.Int).Exp(base.Denom(), exp, nil)), nil
 	}
 
 	// Produce inexact result
 	basef := vals.ConvertToFloat64(base)
 	expf := vals.ConvertToFloat64(exp)
-	return math.Pow(basef, expf)
+	return math.Pow(basef, expf), nil
 }
 
 func isExact(n vals.Num) bool {
